@@ -68,6 +68,10 @@ def enc_value(valset, v):
         return Unencodable()
     if valset == 'int':
         return v
+    if valset == 'nonev':         # ints, except that the second value of every key (10*k + 2) is None
+        return None if v % 10 == 2 else v
+    if valset == 'none12':        # ints, except that 12 is None (persist engine: values are not tied to keys)
+        return None if v == 12 else v
     if valset == 'rich':          # pickle-based encodings
         return {'a': [v, 2.5, (v, None)], 'b': b'\x00\xff', 'inf': float('inf'), 'neg': -v}
     if valset == 'json':
@@ -94,11 +98,21 @@ def _mkfunc(v):
     return _FUNCS[v]
 
 
-def dec_value(valset, x):
-    """real value -> id; negative = not a value of this set"""
+def dec_value(valset, x, kid=0):
+    """real value -> id; negative = not a value of this set.  kid: the id of the key it was stored under, when known"""
     if isinstance(x, Unencodable):
         return BAD
     try:
+        if valset == 'nonev':
+            if x is None:
+                return 10 * kid + 2 if kid > 0 else -8
+            if isinstance(x, int) and not isinstance(x, bool) and x > 0 and x % 10 != 2:
+                return x
+            return -8
+        if valset == 'none12':
+            if x is None:
+                return 12
+            return x if isinstance(x, int) and not isinstance(x, bool) and x > 0 and x != 12 else -8
         if valset == 'int':
             cand = x
         elif valset == 'rich':
@@ -133,14 +147,14 @@ def dec_value(valset, x):
 def valsets_for(backend):
     base = backend.split('+')[0]
     if base in ('dict', 'null'):
-        return ['int', 'rich', 'func']
+        return ['int', 'rich', 'func', 'nonev']
     if base in ('file', 'dir', 'dir-fast', 'dir-compressed'):
-        return ['int', 'rich', 'func'] if base in ('file', 'dir') else ['int', 'rich']
+        return ['int', 'rich', 'func', 'nonev'] if base in ('file', 'dir') else ['int', 'rich', 'nonev']
     if base in ('file-json', 'dir-json'):
-        return ['int', 'json']
+        return ['int', 'json', 'nonev']
     if base in ('file-py', 'dir-py'):
-        return ['int', 'src', 'srcinf']
-    return ['int', 'sql']
+        return ['int', 'src', 'srcinf', 'nonev']
+    return ['int', 'sql', 'nonev']
 
 
 BACKENDS = ['dict', 'null', 'file', 'file-json', 'file-py', 'dir', 'dir-fast', 'dir-compressed', 'dir-json', 'dir-py',
@@ -226,8 +240,8 @@ class Recorder(object):
                 return i
         return -7
 
-    def vid(self, x):
-        return dec_value(self.valset, x)
+    def vid(self, x, kid=0):
+        return dec_value(self.valset, x, kid)
 
     def project(self, d):
         out = [0] * NK
@@ -237,7 +251,7 @@ class Recorder(object):
             if i < 0:
                 extra = True
                 continue
-            out[i - 1] = self.vid(v)
+            out[i - 1] = self.vid(v, i)
         if extra:
             out[NK - 1] = -7       # a key that was never stored
         return out
@@ -296,9 +310,9 @@ class Recorder(object):
                 elif op == 'setbad':
                     h[K(e['k'])] = V(BAD)
                 elif op == 'get':
-                    e['ri'] = self.vid(h[K(e['k'])])
+                    e['ri'] = self.vid(h[K(e['k'])], e['k'])
                 elif op == 'getd':
-                    e['ri'] = self.vid(h.get(K(e['k']), V(e['d'])))
+                    e['ri'] = self.vid(h.get(K(e['k']), V(e['d'])), e['k'])
                 elif op == 'del':
                     del h[K(e['k'])]
                 elif op == 'contains':
@@ -312,21 +326,21 @@ class Recorder(object):
                 elif op == 'values':
                     e['rs'] = sorted(self.vid(v) for v in h.values())
                 elif op == 'items':
-                    its = sorted((self.kid(k), self.vid(v)) for k, v in h.items())
+                    its = sorted((self.kid(k), self.vid(v, self.kid(k))) for k, v in h.items())
                     e['rs'] = [x for it in its for x in it]
                 elif op == 'pop':
-                    e['ri'] = self.vid(h.pop(K(e['k'])))
+                    e['ri'] = self.vid(h.pop(K(e['k'])), e['k'])
                 elif op == 'popd':
-                    e['ri'] = self.vid(h.pop(K(e['k']), V(e['d'])))
+                    e['ri'] = self.vid(h.pop(K(e['k']), V(e['d'])), e['k'])
                 elif op == 'popitem':
                     k, v = h.popitem()
-                    e['rs'] = [self.kid(k), self.vid(v)]
+                    e['rs'] = [self.kid(k), self.vid(v, self.kid(k))]
                 elif op == 'popkeys':
-                    e['rs'] = [self.vid(v) for v in h.popkeys([K(k) for k in e['ks']])]
+                    e['rs'] = [self.vid(v, k) for v, k in zip(h.popkeys([K(k) for k in e['ks']]), e['ks'])]
                 elif op == 'popkeysd':
-                    e['rs'] = [self.vid(v) for v in h.popkeys([K(k) for k in e['ks']], V(e['d']))]
+                    e['rs'] = [self.vid(v, k) for v, k in zip(h.popkeys([K(k) for k in e['ks']], V(e['d'])), e['ks'])]
                 elif op == 'setdefault':
-                    e['ri'] = self.vid(h.setdefault(K(e['k']), V(e['v'])))
+                    e['ri'] = self.vid(h.setdefault(K(e['k']), V(e['v'])), e['k'])
                 elif op == 'update':
                     h.update({K(e['k']): V(e['v']), K(e['k2']): V(e['v2'])})
                 elif op == 'updatekw':
